@@ -66,6 +66,9 @@ func (u *Universe) frameObligations(prop string) []FrameResult {
 	if want("C02", "C14") {
 		add(u.groundGlobalStrings("garbleBuildFlags", []string{"-trimpath", "-buildvcs=false"}, []string{"toolexecCmd", "appendListedPackages"}, []string{"C02", "C14"}))
 	}
+	for _, v := range sortedKeys(u.cs.Stable) {
+		add(u.groundStable(v, strings.Fields(u.cs.Stable[v])))
+	}
 	add(u.effectObligations(prop)...)
 	for _, r := range u.frameCaseCalls(prop) {
 		out = append(out, r)
@@ -460,5 +463,57 @@ func (u *Universe) groundGlobalInit(name, wantInit string, props []string) Frame
 	}
 	r.OK = got == wantInit && !written
 	r.Detail = fmt.Sprintf("%s = %s (expected %s), assigned elsewhere: %v", name, got, wantInit, written)
+	return r
+}
+
+// groundStable: a package-level variable of package main is assigned nowhere, and its address is
+// taken only inside init functions (where the flag set is told about it). The engine then keeps
+// its value across calls whose effects are unknown.
+func (u *Universe) groundStable(name string, props []string) FrameResult {
+	r := FrameResult{Name: "ground:stable-" + name, Props: props, Backend: "ground"}
+	p := u.mainPkg()
+	obj := p.Types.Scope().Lookup(name)
+	if obj == nil {
+		r.Detail = "variable not found"
+		return r
+	}
+	var bad []string
+	for _, f := range p.Syntax {
+		for _, d := range f.Decls {
+			fd, ok := d.(*ast.FuncDecl)
+			if !ok || fd.Body == nil {
+				continue
+			}
+			inInit := fd.Recv == nil && fd.Name.Name == "init"
+			ast.Inspect(fd.Body, func(n ast.Node) bool {
+				is := func(x ast.Expr) bool {
+					id, ok := ast.Unparen(x).(*ast.Ident)
+					return ok && p.TypesInfo.ObjectOf(id) == obj
+				}
+				switch n := n.(type) {
+				case *ast.AssignStmt:
+					for _, l := range n.Lhs {
+						if is(l) {
+							bad = append(bad, "assigned in "+fd.Name.Name)
+						}
+					}
+				case *ast.IncDecStmt:
+					if is(n.X) {
+						bad = append(bad, "assigned in "+fd.Name.Name)
+					}
+				case *ast.UnaryExpr:
+					if n.Op == token.AND && is(n.X) && !inInit {
+						bad = append(bad, "address taken in "+fd.Name.Name)
+					}
+				}
+				return true
+			})
+		}
+	}
+	r.OK = len(bad) == 0
+	r.Detail = fmt.Sprintf("%s is written only through the flag set registered in init: %v", name, bad)
+	if !r.OK {
+		r.Witness = bad[0]
+	}
 	return r
 }
